@@ -837,6 +837,20 @@ fn hostile_strings(maxlen: usize) -> Vec<String> {
     out
 }
 
+/// field names spelled like words of the emitted SQL dialect
+const SQLISH_FIELDS: [&str; 12] = ["end", "when", "then", "or", "and", "not", "array", "NOT", "CASE", "json", "integer", "bool"];
+
+fn sqlish_tree(k: usize, f: &'static str) -> X {
+    let base = || X::Field(Box::new(X::Id("a")), f);
+    match k {
+        0 => base(),
+        1 => X::Field(Box::new(base()), "g"),
+        2 => X::Method(Box::new(X::Id("a")), f, vec![X::Id("b")]),
+        3 => X::Bin("==", Box::new(base()), Box::new(X::Int(1))),
+        _ => X::Call("int", vec![base()]),
+    }
+}
+
 const STRING_POSITIONS: usize = 9;
 fn string_position(k: usize, s: &str) -> X {
     let lit = || X::Str(s.to_string());
@@ -888,6 +902,10 @@ impl Space {
     fn run_tree(&self, idx: u64, acc: &mut Acc) {
         check_tree(acc, &self.trees[idx as usize], "trees");
     }
+    fn run_sqlish(&self, idx: u64, acc: &mut Acc) {
+        let x = sqlish_tree((idx % 5) as usize, SQLISH_FIELDS[(idx / 5) as usize]);
+        check_tree(acc, &x, "field-names");
+    }
     fn run_string(&self, idx: u64, acc: &mut Acc) {
         let s = &self.strs[(idx / STRING_POSITIONS as u64) as usize];
         let x = string_position((idx % STRING_POSITIONS as u64) as usize, s);
@@ -900,6 +918,7 @@ pub fn replay_families(t: Tier) -> Vec<Family<'static>> {
     vec![
         Family::new("trees", sp.trees.len() as u64, move |i, a| sp.run_tree(i, a)),
         Family::new("strings", (sp.strs.len() * STRING_POSITIONS) as u64, move |i, a| sp.run_string(i, a)),
+        Family::new("field-names", (SQLISH_FIELDS.len() * 5) as u64, move |i, a| sp.run_sqlish(i, a)),
     ]
 }
 
@@ -907,13 +926,14 @@ pub fn run(t: Tier) -> i32 {
     let mut rep = Report::new(ID, t, "exploration");
     let sp = Space::new(t);
     rep.rule = format!(
-        "trees: all {} source trees with <= 1 (thorough: 2) construct nodes over 8 leaves and the full alphabet plus all with exactly 2 (thorough: 3) nodes over a reduced alphabet (3 leaves, 5 operators, 2 casts); constructs: 14 binary operators, ! and - runs of 1 and 2, ?:, parentheses, lists and maps of 0..2 entries, free calls with 0..3 arguments, the 9 type constructors with 0, 1 and 2 arguments, method calls with 0..2 arguments on any receiver (so calls alone, in member chains, after an index, followed by a member), member and index access; plus match / bytes / f-string in 12 positions each (must be reported unsupported). strings: all {} strings of length <= {} over {{a ' \" \\ - ; LF * /}} in 9 positions (alone, operand, call argument, list element, map key, map value, cast argument, index, method arguments). The SQL is read back by an independent tokenizer/parser for the emitted dialect with SQL precedences; the tree must equal the source tree (operators, operand order, grouping, function names, argument order, paths, casts), the multiset of string tokens must equal the CEL strings and member names, and no comment opener or semicolon may appear outside a string. Non-trivial = every case that compiles; distinct by source",
+        "trees: all {} source trees with <= 1 (thorough: 2) construct nodes over 8 leaves and the full alphabet plus all with exactly 2 (thorough: 3) nodes over a reduced alphabet (3 leaves, 5 operators, 2 casts); constructs: 14 binary operators, ! and - runs of 1 and 2, ?:, parentheses, lists and maps of 0..2 entries, free calls with 0..3 arguments, the 9 type constructors with 0, 1 and 2 arguments, method calls with 0..2 arguments on any receiver (so calls alone, in member chains, after an index, followed by a member), member and index access; plus match / bytes / f-string in 12 positions each (must be reported unsupported). strings: all {} strings of length <= {} over {{a ' \" \\ - ; LF * /}} in 9 positions (alone, operand, call argument, list element, map key, map value, cast argument, index, method arguments); field-names: 12 field and method names spelled like words of the emitted dialect (end, when, or, NOT, json, ...) in 5 positions. The SQL is read back by an independent tokenizer/parser for the emitted dialect with SQL precedences; the tree must equal the source tree (operators, operand order, grouping, function names, argument order, paths, casts), the multiset of string tokens must equal the CEL strings and member names, and no comment opener or semicolon may appear outside a string. Non-trivial = every case that compiles; distinct by source",
         sp.trees.len(),
         sp.strs.len(),
         t.pick(3, 4)
     );
     rep.run_family(Family::new("trees", sp.trees.len() as u64, |i, a| sp.run_tree(i, a)));
     rep.run_family(Family::new("strings", (sp.strs.len() * STRING_POSITIONS) as u64, |i, a| sp.run_string(i, a)));
+    rep.run_family(Family::new("field-names", (SQLISH_FIELDS.len() * 5) as u64, |i, a| sp.run_sqlish(i, a)));
     rep.assumptions = vec![
         "the reader implements the SQL standard string rules (doubling of quotes, literal backslash) and accepts the E'..' form".into(),
         "the operator mapping is the one the translator uses (OR AND = <> ! and the nine casts); uint literals are compared by their digits".into(),
